@@ -196,19 +196,34 @@ def rule_ag_sib(cx, rep, port):
     p = cx.port(port)
     mod = cx.engine_mod(port)
     a, b = p.cls(mod, 'MinAggregator'), p.cls(mod, 'MaxAggregator')
+    from ..snippet import alpha_equal, _copy_tree
     ta = ast.dump(ast.Module(body=a.body, type_ignores=[]))
     tb = ast.dump(ast.Module(body=b.body, type_ignores=[]))
-    swapped = tb.replace("'max'", "'min'").replace('Max', 'Min')
     uses_min = "'min'" in ta and "'max'" not in ta
     uses_max = "'max'" in tb and "'min'" not in tb
     if not uses_min:
         rep.violated('MinAggregator', a, 'MinAggregator does not combine values with min (only)')
-    elif not uses_max:
+        return
+    if not uses_max:
         rep.violated('MaxAggregator', b, 'MaxAggregator does not combine values with max (only)')
-    elif ta != swapped.replace('Min', 'Min'):
-        rep.violated('Min/Max siblings', b, 'MinAggregator and MaxAggregator differ in more than min <-> max')
+        return
+    ma = {m.name: m for m in a.body if isinstance(m, ast.FunctionDef)}
+    mb = {m.name: m for m in b.body if isinstance(m, ast.FunctionDef)}
+    diff = [n for n in set(ma) | set(mb) if n not in ma or n not in mb]
+    for n in sorted(set(ma) & set(mb)):
+        twin = _copy_tree(mb[n])
+        for x in ast.walk(twin):
+            if isinstance(x, ast.Name) and x.id == 'max':
+                x.id = 'min'
+            if isinstance(x, ast.Attribute) and x.attr == 'max':
+                x.attr = 'min'
+        ast.fix_missing_locations(twin)
+        if not alpha_equal(ma[n], ast.unparse(twin)):
+            diff.append(n)
+    if diff:
+        rep.violated('Min/Max siblings', b, 'MinAggregator and MaxAggregator differ in more than min <-> max (methods {})'.format(sorted(diff)))
     else:
-        rep.holds('Min/Max siblings', a, 'identical up to min <-> max')
+        rep.holds('Min/Max siblings', a, 'identical up to min <-> max and local renaming')
 
 
 def rule_ag_mad(cx, rep, port='py'):
